@@ -25,6 +25,7 @@ class FakeSock:
         self.shut = []
         self.log = []            # ('send', n_offered, n_accepted) / ('recv', n) / ('close',) ...
         self.blocking = True
+        self.timeout = None
         self.close_count = 0
         self.peer_reset = False  # set once a scripted reset / broken pipe was raised: shutdown() then fails like a real socket
 
@@ -46,9 +47,12 @@ class FakeSock:
 
     def setblocking(self, b):
         self.blocking = b
+        self.timeout = None if b else 0.0
 
     def settimeout(self, t):
-        pass
+        # settimeout(0) = non-blocking, settimeout(None) = blocking, settimeout(t>0) = timeout mode (still a BLOCKING socket)
+        self.timeout = t
+        self.blocking = (t is None) or (t > 0)
 
     def setsockopt(self, *a):
         pass
@@ -60,6 +64,11 @@ class FakeSock:
         if self.closed:
             raise OSError(errno.EBADF, 'Bad file descriptor')
         if not self.inq:
+            if self.blocking:
+                # a blocking / timeout-mode socket asked to read when nothing is there BLOCKS the caller (here: the whole
+                # event loop) and, in timeout mode, finally raises socket.timeout; recorded so that oracles can flag it
+                self.log.append(('blocked_recv', self.timeout))
+                raise TimeoutError('timed out')
             raise BlockingIOError(errno.EAGAIN, 'would block')
         x = self.inq.pop(0)
         if isinstance(x, BaseException):
@@ -150,6 +159,7 @@ class Sim:
             if isinstance(outcome, BaseException):
                 raise outcome
             s = FakeSock('up%d' % len(sim.upstreams))
+            s.settimeout(timeout if timeout else 10.0)      # what the real new_socket_connection leaves behind
             sim.upstreams.append(s)
             if sim.on_connect:
                 sim.on_connect(s)
